@@ -12,6 +12,36 @@ def run(tier):
     rep.add_tlc(res, "1 connection, 2 subscriptions, queue capacity 2: all interleavings of handlers, writer, unsubscribe and connection close")
     if res["distinct"] < 100000:
         raise vlib.ToolError("vacuity: the ordering config explored only %d states" % res["distinct"])
+    # ---- serialised replay (B): every driver-call sequence taken when the writers have drained; the frames each peer must
+    # have received are part of every case (quick: a stable tenth of the cases; thorough: all of them)
+    import hashlib
+    from checks import g
+    wres = vlib.tlc("MC_ServerSubs", "MC_ServerSubs_wire.cfg", workers=8, timeout=1500, coverage=False)
+    rep.add_tlc(wres, "serialised behaviours (a driver step only when every writer has drained): 2 connections, 3 subscribe calls, caps 1..2, "
+                      "<= 2 notifications each, sequences of <= 5 driver calls; emitted with the frames each peer must have received")
+    wcases = wres["replay"]
+    kinds = {f["t"] for c in wcases for conn in c["frames"] for f in conn}
+    if not {"resp", "err", "notif", "close", "unsubResp"} <= kinds:
+        raise vlib.ToolError("vacuity: frame kinds never enumerated: %s" % ({"resp", "err", "notif", "close", "unsubResp"} - kinds))
+    # every prefix of a case's call sequence is a case of its own (the one that discovered the pre-state): its frame counts tell
+    # the serialised driver how many frames to wait for after that step (the spec's `Drained`)
+    key = lambda steps: json.dumps([[st["op"], st["res"]] for st in steps], sort_keys=True)
+    counts, uniq = {}, {}
+    for c in wcases:
+        counts[key(c["path"])] = [len(x) for x in c["frames"]]
+        uniq.setdefault(key(c["path"]), c)          # the same call sequence is emitted once per writer progress: keep one
+    wcases = [uniq[k] for k in sorted(uniq)]
+    for c in wcases:
+        plain = list(c["path"])
+        for i in range(len(plain)):
+            nf = counts.get(key(plain[:i + 1]))
+            if nf is None:
+                raise vlib.ToolError("a prefix of an emitted call sequence was not emitted itself")
+            c["path"][i] = dict(plain[i], nf=nf)
+    if tier == "quick":
+        wcases = [c for c in wcases if int(hashlib.sha1(json.dumps([[st["op"], st["res"]] for st in c["path"]], sort_keys=True).encode()).hexdigest(), 16) % 10 == 0]
+    g.replay_flow(rep, "c06", wcases, timeout=3000,
+                  nontrivial=lambda c: any(f["t"] in ("notif", "close") for conn in c["frames"] for f in conn))
     vlib.build_harness()
     n = 150 if tier == "quick" else 2500
     path = os.path.join(rep.wd, "trace-subs.ndjson")
